@@ -53,6 +53,7 @@ def run_history(world, spec, hist, store_kind, oracles, sigtab=None, opts=None, 
     obs = []
     seen_cones = set()
     kept_ever = {}
+    diverged = False
     try:
         for si, (vi, how, entry) in enumerate(hist):
             variant = vs[vi]
@@ -138,9 +139,13 @@ def run_history(world, spec, hist, store_kind, oracles, sigtab=None, opts=None, 
                                   _what(spec, hist, si, f"signatures {_abbr(real.sigs)} differ from {_abbr(prevv[0])} obtained for the same program state via {prevv[1]}"),
                                   {"prev_hist": [list(x) for x in prevv[1][0]], "prev_store": prevv[1][1]}))
             # ---------------- C04: committed paths serve the latest kept value
-            if "C04" in oracles and store_kind != "noop" and real.status == "ok" and ref.status == "ok":
+            if real.status == "ok" and ref.status == "ok" and real.value != ref.value:
+                # the keep itself returned something else than plain execution (C01's business): from here on the paths can
+                # only be compared with what dds returned, which this oracle does not observe - C04 demands nothing more
+                diverged = True
+            if "C04" in oracles and store_kind != "noop" and real.status == "ok" and ref.status == "ok" and not diverged:
                 probs += _check_paths(prog, spec, hist, si, real, ref, fresh=False)
-        if "C04" in oracles and store_kind != "noop" and obs and obs[-1]["real"][0] == "ok":
+        if "C04" in oracles and store_kind != "noop" and obs and obs[-1]["real"][0] == "ok" and not diverged:
             prog.restart()
             probs += _check_paths(prog, spec, hist, len(hist) - 1, None, None, fresh=True)
     finally:
